@@ -126,3 +126,29 @@ Lemma froms_two_routes :
   option_map (fun r => (map s_info (fst r), snd r)) (froms_to_imports w_lay w_prefs routes_used [] routes_stmts)
   = Some ([Normal [([n_la], None)]], [[n_la; n_x]; [n_la; n_x]; [n_la; n_y]]).
 Proof. vm_compute. reflexivity. Qed.
+
+From RopeVerif.C07 Require Import Unbound.
+
+(* the finder visits the default value x=x with the inner scope's table: the use of the global x is missed,
+   although Python evaluates the default value in the enclosing scope; la.y and its prefix are found *)
+Lemma used_names_refuted :
+  exists gnames body u, In u (py_unbound_names gnames body) /\ ~ In u (unbound_names gnames body).
+Proof.
+  exists [n_g], hidden_body, [n_x]. split; [vm_compute; tauto|].
+  vm_compute. intros H. repeat (destruct H as [H|H]; [discriminate|]). exact H.
+Qed.
+
+Lemma used_names_example :
+  unbound_names [n_g] hidden_body = [[n_print]; [n_la]; [n_la; n_y]] /\
+  py_unbound_names [n_g] hidden_body = [[n_x]; [n_print]; [n_la]; [n_la; n_y]].
+Proof. split; vm_compute; reflexivity. Qed.
+
+From RopeVerif.C07 Require Import StableProofs SortProofs.
+
+(* the hypothesis of the stability theorem holds on the sorted result of a removal that removed something,
+   and fails exactly on the witness of C07_idempotent_refuted (import pkg.t / import pkg.s both bind pkg) *)
+Lemma ex_stable_nonvacuous :
+  let l := sort_imports w_lay false (remove_unused w_lay (names_unused ex_used ex_exported) ex_stmts) in
+  distinct_heads w_lay l = true /\ map s_info l <> map s_info ex_stmts /\
+  distinct_heads w_lay idem_stmts = false.
+Proof. repeat split; vm_compute; congruence. Qed.
